@@ -548,6 +548,14 @@ pub fn generate(profile: &str, seed: u64, n_ops: usize, blob: bool) -> History {
                         if st.frozen.contains(&k) {
                             continue;
                         }
+                        if profile == "filter" && st.wcount.get(&k).copied().unwrap_or(0) == 1 && rng.chance(1, 5) {
+                            // single-delete discipline: written once, weak-deleted once, then
+                            // left alone; whatever verdict is in force for the key stays (the
+                            // filter must never be shown the weak tombstone)
+                            st.frozen.insert(k.clone());
+                            ops.push(Op::WDel(k));
+                            continue;
+                        }
                         *st.wcount.entry(k.clone()).or_insert(0) += 1;
                         if rng.chance(3, 4) {
                             let v = rand_value(&mut rng, &mut st.vn, true);
@@ -628,7 +636,31 @@ pub fn generate(profile: &str, seed: u64, n_ops: usize, blob: bool) -> History {
                 }
                 "drop" | "blob" => {
                     if rng.chance(1, 6) {
-                        ops.push(Op::Clear);
+                        // clear in different states of the tree: as it is; with the data sitting
+                        // in a sealed (rotated, unflushed) memtable and an empty active one; and
+                        // that again with no table on disk at all
+                        match rng.below(3) {
+                            0 => ops.push(Op::Clear),
+                            1 => {
+                                ops.push(Op::Rotate);
+                                ops.push(Op::Clear);
+                            }
+                            _ => {
+                                ops.push(Op::Clear);
+                                for _ in 0..rng.range(1, 3) {
+                                    let k = rng.pick(&st.keys).clone();
+                                    let v = rand_value(&mut rng, &mut st.vn, true);
+                                    ops.push(Op::Put(k, v));
+                                }
+                                ops.push(Op::Rotate);
+                                ops.push(Op::Clear);
+                            }
+                        }
+                        if rng.chance(1, 2) {
+                            let k = rng.pick(&st.keys).clone();
+                            ops.push(Op::Get(k, None));
+                            ops.push(Op::Len(None));
+                        }
                     } else {
                         let lo = rand_bound(&mut rng, &st.keys);
                         let hi = rand_bound(&mut rng, &st.keys);
